@@ -389,6 +389,10 @@ def _is_flag(fn, ref):
     i = fn.imap.get(ref) if isinstance(ref, str) else None
     if i is not None and i.op == 'zext' and i.x.get('sty') == 'i1':
         return True          # a flag computed as (comparison)
+    if i is not None and i.op == 'call' and i.callee and i.ty == 'i32':
+        g = fn.mod.func(i.callee)
+        if g is not None and not g.decl and g.internal:
+            return True      # ... or by a static predicate (the agreement of flag and deadline is judged on the interpretation below)
     return i is not None and i.op == 'phi' and i.ty == 'i32' and sorted(IR.ival(v) for v, _ in i.ops if IR.is_int(v)) == [0, 1]
 
 def _initial_default(fn, phi, pb):
